@@ -376,6 +376,7 @@ def run(prog, tier, extra=None):
     R2 = res.rule("C09.size-const", "declared size constants equal the writer's fixed prefix", floor=4)
     R4 = res.rule("C09.size-predictor", "Transaction::get_serialized_size is the same linear form as the writer's length", floor=1)
     R5 = res.rule("C09.container-domain", "the block decoder adds no value-domain restriction of its own on carried transactions", floor=1)
+    R6 = res.rule("C09.count-limits", "the reader accepts every slip count the writer encodes", floor=2)
     R3 = res.rule("C09.tags", "Message tags are injective and each decode arm constructs the variant carrying that tag", floor=28)
     cd = Codec(prog)
     summary = {}
@@ -551,6 +552,95 @@ def run(prog, tier, extra=None):
                         "a transaction that Transaction's codec accepts can make an encodable block undecodable" % (what, op, c), loc))
     if not own:
         res.sample({"rule": R5, "container": "Block::deserialize_from_net", "own_thresholds": 0, "transaction_codec_thresholds": sorted(nested), "verdict": "no value-domain restriction of its own"})
+
+    # R6: the slip-count limits of the transaction codec agree: the largest count the writer still encodes is accepted by the reader
+    tw2 = find_body(prog, "consensus::transaction::Transaction::serialize_for_net_with_hop")
+
+    def admissible_max(body, is_count):
+        """{which: largest value not rejected} from comparisons `count > c` / `count >= c` / `!(a..b).contains(&count)` that lead to a reject"""
+        out = {}
+        chb = Chaser(body)
+        for bb, blk in enumerate(body.blocks):
+            t = blk["t"]
+            if t["k"] != "switch":
+                continue
+            e, neg = _gate.unwrap_not(chb.origin(t["discr"]))
+            which = None
+            limit = None
+            if e[0] == "bin" and e[1] in ("Gt", "Ge", "Lt", "Le"):
+                a, c = e[2], e[3]
+                op = e[1]
+                if strip(a)[0] == "const":
+                    a, c = c, a
+                    op = {"Gt": "Lt", "Ge": "Le", "Lt": "Gt", "Le": "Ge"}[op]
+                k = strip(c)
+                which = is_count(a)
+                if which and k[0] == "const" and isinstance(k[1], int):
+                    # the edge on which `a op k` is true rejects when op is Gt/Ge
+                    if (op == "Gt") != neg and op in ("Gt", "Le"):
+                        limit = k[1] if op == "Gt" else None
+                    if op == "Ge" and not neg:
+                        limit = k[1] - 1
+                    if op == "Gt" and not neg:
+                        limit = k[1]
+            elif e[0] == "call" and e[1].endswith("Range::contains") and len(e[2]) == 2:
+                rng, v = e[2]
+                while rng[0] in ("ref", "deref"):
+                    rng = rng[1]
+                if rng[0] == "const" and "::promoted[" in (rng[2] or ""):
+                    # `&(a..b)` with constant bounds is a promoted constant: read the range out of the promoted body
+                    pb = prog.bodies.get(rng[2]) or body.unit.bodies.get(rng[2])
+                    if pb is not None:
+                        chp = Chaser(pb)
+                        for blk2 in pb.blocks:
+                            for st2 in blk2["s"]:
+                                if st2[0] == "=" and st2[2][0] == "agg" and st2[2][1][0] == "adt" and st2[2][1][1].endswith("Range"):
+                                    rng = chp.rvalue(st2[2], 0)
+                which = is_count(v)
+                if which and rng[0] == "agg" and len(rng[2]) == 2 and strip(rng[2][1])[0] == "const":
+                    limit = strip(rng[2][1])[1] - 1       # half-open range a..b admits up to b-1
+            elif e[0] == "call" and e[1].endswith("RangeInclusive::contains") and len(e[2]) == 2:
+                which = is_count(e[2][1])
+                for x in walk(e[2][0]):
+                    if x[0] == "const" and isinstance(x[1], int) and x[1] > 0:
+                        limit = x[1]
+            if which and limit is not None:
+                out[which] = min(limit, out.get(which, limit))
+        return out
+
+    def writer_count(e):
+        x = strip(e)
+        if x[0] == "len":
+            for f in ("from", "to"):
+                if has_field_named(x[1], f):
+                    return f
+        return None
+
+    def has_field_named(e, f):
+        return any(y[0] == "field" and y[3] == f and y[2].endswith("transaction::Transaction") for y in walk(e))
+
+    def reader_count(e):
+        # decoded from bytes[0..4] (inputs) / bytes[4..8] (outputs)
+        for y in walk(e):
+            if y[0] == "call" and y[1] == "std::ops::Index::index" and len(y[2]) == 2:
+                idx = y[2][1]
+                while idx[0] in ("ref", "deref"):
+                    idx = idx[1]
+                if idx[0] == "agg" and len(idx[2]) == 2 and all(o[0] == "const" for o in idx[2]):
+                    lo = idx[2][0][1]
+                    return {0: "from", 4: "to"}.get(lo)
+        return None
+    wmax = admissible_max(tw2, writer_count)
+    rmax = admissible_max(td, reader_count)
+    for f in ("from", "to"):
+        res.instance(R6)
+        if f not in wmax or f not in rmax:
+            res.not_decided.append("slip-count limit of Transaction.%s: writer %s, reader %s" % (f, wmax.get(f), rmax.get(f)))
+        elif rmax[f] < wmax[f]:
+            res.add(Finding(R6, "C09.count-limits|Transaction.%s" % f, "Transaction::serialize_for_net encodes up to %d %s slips but deserialize_from_net rejects more than %d: "
+                            "a transaction at the upper limit does not survive the wire" % (wmax[f], "input" if f == "from" else "output", rmax[f]), td.loc(0)))
+        else:
+            res.sample({"rule": R6, "count": f, "writer_max": wmax[f], "reader_max": rmax[f], "verdict": "reader accepts everything the writer encodes"})
 
     # tags
     gv = prog.body(CORE + "msg::message::Message::get_type_value")
